@@ -239,6 +239,24 @@ CHECKS = {
             "the model, every published value equals the getter.",
             "Persistent n/min/max not compared; ordinary statistics "
             "themselves are C09/C10."),
+    "C07": ("exploration",
+            "cross-process configuration enumeration (PYTHONHASHSEED x prior "
+            "activity) x exhaustive pause patterns, plus preemption-bounded "
+            "schedule exploration of a polling driver; all digests of one "
+            "scenario must be identical",
+            "cfgmc+coopsched",
+            "A stochastic fan-out model (id- and name-hashed listeners that "
+            "draw from a shared stream, schedule tied events, unsubscribe and "
+            "re-subscribe) run in 13 (thorough 30) fresh interpreters with "
+            "different hash seeds and prior activity (event-id counter "
+            "crossing 2^16/2^20(/2^24) between tied events), in each under 45 "
+            "pause patterns (uninterrupted, step-all, bounded, stop at handler "
+            "k=1..39, second replication); full digest equal across processes "
+            "per pattern, reduced digest equal across patterns; every "
+            "schedule with <=1 preemption of a polling driver gives one "
+            "digest.",
+            "Hash seeds / prior activity are sampled dimensions (listed in "
+            "evidence)."),
 }
 
 NOT_YET = {}
